@@ -306,6 +306,12 @@ class MultiVector:
         if isinstance(values, (tuple, list)):
             # Coefficients that are plain numbers are the same for every element.
             return_values = values.__class__(value[item] if hasattr(value, '__getitem__') else value for value in values)
+        elif any(isinstance(i, (list, tuple)) or hasattr(i, 'shape') for i in item) and \
+                sum(isinstance(i, (int, list, tuple)) or hasattr(i, 'shape') for i in item) > 1:
+            # With several advanced indices numpy can move the indexed axes in front of the axis of the
+            # coefficients: index the coefficients one by one.
+            import numpy as np
+            return_values = np.array([value[item] for value in values])
         else:
             return_values = values[(slice(None), *item)]
         return self.__class__.fromkeysvalues(self.algebra, keys=self.keys(), values=return_values)
